@@ -29,7 +29,7 @@ pub fn generate(r: &mut Rng, tier: Tier) -> Scenario {
         property: "C11".into(),
         variant: "t1-graph".into(),
         world,
-        personality: crate::reader::Personality::Strict,
+        personality: if r.chance(1, 4) { crate::reader::Personality::Lsp } else { crate::reader::Personality::Strict },
         reader_faults: vec![],
         entropy,
         history: vec![],
@@ -72,8 +72,7 @@ pub fn check(scn: &Scenario, stats: &mut Stats) -> Vec<Violation> {
     let rp = refmodel::parse(&pasted);
     let text_ok = rp.unrecognised.is_empty();
     for &e in &scn.entropy {
-        let mut spec = LintSpec::new(&scn.world, e, Api::Coded);
-        spec.personality = scn.personality;
+        let mut spec = LintSpec::of(scn, e, Api::Coded);
         spec.want_snapshot = true;
         let o = lint::run(&spec);
         stats.inc("t1_incarnations");
@@ -201,7 +200,14 @@ pub fn check(scn: &Scenario, stats: &mut Stats) -> Vec<Violation> {
                 let n = &s.nodes[i];
                 if n.is_return || n.is_ureturn {
                     let overlapping = shared.contains(&i);
-                    out.push(viol("F3:other-returns-lead-to-exit", format!("F3:second-return-left{}", if overlapping { ":overlapping-functions" } else { "" }), format!("entropy {e}: function {:?} has exit {} but {} is still a return", f.labels, at(s, f.exit), at(s, i))));
+                    // is the return that was left the exit of another function, and is this
+                    // function's own exit shared with another function as well?
+                    let other_exit = s.funcs.iter().any(|g| !std::ptr::eq(g, f) && g.exit == i);
+                    let own_exit_shared = s.funcs.iter().any(|g| !std::ptr::eq(g, f) && g.exit == f.exit);
+                    let mut v = viol("F3:other-returns-lead-to-exit", format!("F3:second-return-left{}", if overlapping { ":overlapping-functions" } else { "" }), format!("entropy {e}: function {:?} has exit {} but {} is still a return", f.labels, at(s, f.exit), at(s, i)));
+                    v.features.insert("left_return_is_exit_of_another_function".into(), other_exit.to_string());
+                    v.features.insert("own_exit_is_exit_of_another_function".into(), own_exit_shared.to_string());
+                    out.push(v);
                     return out;
                 }
                 if n.rewritten_return {
@@ -228,6 +234,43 @@ pub fn check(scn: &Scenario, stats: &mut Stats) -> Vec<Violation> {
                 format!("entropy {e}: {} node(s) belong to several functions (e.g. {}), node-in-many-functions reported: {reported}", shared.len(), shared.iter().next().map_or(String::new(), |i| at(s, *i))),
             ));
             return out;
+        }
+        // F4 per pair: every two functions that share instructions have a node-in-many-functions
+        // diagnostic located on an instruction (or its label) that both of them own
+        if !shared.is_empty() {
+            let located: Vec<usize> = o
+                .diags
+                .iter()
+                .filter(|d| d.code.as_deref() == Some("node-in-many-functions"))
+                .filter_map(|d| {
+                    // the diagnostic sits on a label (possibly written in another file than the
+                    // instruction it names) or on the instruction itself
+                    let by_label = rp
+                        .label_sites
+                        .iter()
+                        .filter(|(_, f, l)| *f == d.file && *l == d.line)
+                        .find_map(|(name, _, _)| s.nodes.iter().position(|n| n.labels.contains(name)));
+                    by_label.or_else(|| s.nodes.iter().position(|n| n.file == d.file && n.line == d.line && !n.funcs.is_empty()))
+                })
+                .collect();
+            for a in 0..s.funcs.len() {
+                for b in a + 1..s.funcs.len() {
+                    let share = s.funcs[a].nodes.iter().any(|i| s.funcs[b].nodes.contains(i));
+                    if !share {
+                        continue;
+                    }
+                    stats.inc("function_pairs_sharing_code");
+                    let covered = located.iter().any(|i| s.nodes[*i].funcs.contains(&a) && s.nodes[*i].funcs.contains(&b));
+                    if !covered {
+                        out.push(viol(
+                            "F4:sharing-reported-iff-exists",
+                            "F4:pair-sharing-not-reported".into(),
+                            format!("entropy {e}: functions {:?} and {:?} share instructions but no node-in-many-functions diagnostic is located on an instruction both own (diagnostics at {:?})", s.funcs[a].labels, s.funcs[b].labels, located.iter().map(|i| at(s, *i)).collect::<Vec<_>>()),
+                        ));
+                        return out;
+                    }
+                }
+            }
         }
         if s.funcs.iter().any(|f| f.labels.len() > 1) {
             stats.inc("probe:multi_label_entry");
